@@ -220,18 +220,22 @@ Proof.
   - intros nm H. rewrite Hmcl in H. auto.
 Qed.
 
+Definition globals_equiv (e e' : env) : Prop :=
+  (forall nm, lookup_class e' nm = lookup_class e nm) /\ e_mcs e' = e_mcs e /\ e_defs e' = e_defs e /\ e_dsets e' = e_dsets e.
+Lemma same_globals_equiv : forall e e', same_globals e e' -> globals_equiv e e'.
+Proof. intros e e' (A & B & C & D). repeat split; auto. intros nm. unfold lookup_class. now rewrite A. Qed.
+
 (** after a block-like statement whose body ended in [s_in] (related to [e1]): the locals are those of before
     the statement, the globals those of the end of the body *)
 Lemma finish_block_like : forall files n x f e e1 e' s s_in E,
     block_like x = true -> Stat s -> Pre2 f e s -> e_frames e <> [] ->
-    e_frames e' = e_frames e -> same_globals e1 e' ->
+    e_frames e' = e_frames e -> globals_equiv e1 e' ->
     Pre2g f e1 s_in -> same_but_scopes (snd (index_stmt files n x s)) s_in ->
     s_uses s_in = rev E ++ s_uses s -> nf s_in = nf s ->
     ResB f s (snd (index_stmt files n x s)) E e'.
 Proof.
-  intros files n x f e e1 e' s s_in E Hx [Hnr Hmv Hne] P He Hfr (G1 & G2 & G3 & G4) P1 SB HU HN.
+  intros files n x f e e1 e' s s_in E Hx [Hnr Hmv Hne] P He Hfr (Hcl & G2 & G3 & G4) P1 SB HU HN.
   assert (Hloc : forall nm, locals_of e' nm = locals_of e nm) by (intros; unfold locals_of; now rewrite Hfr).
-  assert (Hcl : forall nm, lookup_class e' nm = lookup_class e1 nm) by (intros; unfold lookup_class; now rewrite G1).
   assert (Hmcl : forall nm, lookup_mc e' nm = lookup_mc e1 nm) by (intros; unfold lookup_mc; now rewrite G2).
   set (s' := snd (index_stmt files n x s)) in *.
   pose proof (scopes_balanced files n x s Hx) as Hsc. fold s' in Hsc.
@@ -492,7 +496,7 @@ Section CasesB.
     change (snd (scoped KBlock (iterM (index_stmt files n) b) s))
       with (snd (index_stmt files (S n) (SLet [] b) s)).
     eapply (finish_block_like files (S n) (SLet [] b) f e _ _ s); eauto.
-    - apply same_globals_leave.
+    - apply same_globals_equiv, same_globals_leave.
     - apply Pre2_g. exact P1.
     - change (snd (index_stmt files (S n) (SLet [] b) s)) with (snd (scoped KBlock (iterM (index_stmt files n) b) s)).
       rewrite (scoped_final _ KBlock _ s vs Sc). apply sbs_set_scopes.
@@ -943,7 +947,7 @@ Section CasesB4.
     rewrite Eb in R3. simpl in R3. destruct R3 as [U3 N3 [vs Sc3] P4 T4 F4]; auto; [discriminate|].
     rewrite <- Efin. unfold final.
     eapply (FIN e1 (leave e e1) s (snd (iterM (index_stmt files n) b (pushed (k s1) s2))) (ev0 ++ ev1)); auto.
-    - apply same_globals_leave.
+    - apply same_globals_equiv, same_globals_leave.
     - now apply Pre2_g.
     - change (same_but_scopes final (snd (iterM (index_stmt files n) b (pushed (k s1) s2)))).
       rewrite Efin. erewrite (scoped_final _ _ _ s2 vs); [apply sbs_set_scopes|exact Sc3].
@@ -997,7 +1001,7 @@ Section CasesB4.
     destruct (parents_mc_sim n ps f (push_vars e []) (pushed k s1) Hfp Pp Tp Hk HR Hb3) as [U2 V2 Sc2 N2].
     rewrite <- Efin. unfold final.
     eapply (FIN e e s (snd (index_parents n ps (pushed k s1))) (flat_map (spec_mcref f (push_vars e [])) ps)); auto.
-    - apply same_globals_refl.
+    - apply same_globals_equiv, same_globals_refl.
     - eapply (Pre2g_globals f (push_vars e []) e); [repeat split|]. apply Pre2_g. eapply Pre2_VRm; eassumption.
     - change (same_but_scopes final (snd (index_parents n ps (pushed k s1)))).
       rewrite Efin. rewrite (scoped_final _ k _ s1 []); [apply sbs_set_scopes|]. rewrite Sc2. now rewrite add_vars_nil.
@@ -1572,4 +1576,1077 @@ Proof.
     eapply ResR_trans; [exact R1|]. apply value_ResR; auto.
   - (* dump *)
     simpl in Hf, HR, Hb |- *. unfold seq in *. simpl in *. apply value_ResR; auto.
+Qed.
+
+Lemma items_sim : forall n l f e s rid,
+    forallb frag_item l = true -> RB f e s rid -> Pre2g f e s ->
+    forallb resolved (fst (spec_items f e l)) = true ->
+    s_bad (snd (iterM (index_item n) l s)) = false ->
+    ResR f s (snd (iterM (index_item n) l s)) (fst (spec_items f e l)) (snd (spec_items f e l)) rid.
+Proof.
+  intros n l. induction l as [|it r IHl]; intros f e s rid Hf R G HR Hb.
+  - simpl. split; auto.
+  - simpl in Hf. apply andb_true_iff in Hf. destruct Hf as [Hf1 Hf2].
+    simpl in HR, Hb |- *. unfold seq in *.
+    destruct (spec_item f e it) as [ev1 e1] eqn:E1. destruct (spec_items f e1 r) as [ev2 e2] eqn:E2. simpl in *.
+    rewrite forallb_app in HR. apply andb_true_iff in HR. destruct HR as [HR1 HR2].
+    assert (BMi : forall x, resp BadMono (index_item n x)).
+    { intros x. apply (r_index_item BadMono BM_refl BM_trans); bm_prim. }
+    assert (Hb1 : s_bad (snd (index_item n it s)) = false).
+    { eapply (bad_false_before _ (iterM (index_item n) r)); [|exact Hb].
+      apply (resp_iterM BadMono BM_refl BM_trans). intros; apply BMi. }
+    pose proof (item_sim n it f e s rid Hf1 R G) as R1. rewrite E1 in R1. simpl in R1. specialize (R1 HR1 Hb1).
+    pose proof R1 as [_ _ Rb1 G1].
+    pose proof (IHl f e1 _ rid Hf2 Rb1 G1) as R2. rewrite E2 in R2. simpl in R2. specialize (R2 HR2 Hb).
+    eapply ResR_trans; eassumption.
+Qed.
+
+(** a template argument of a record *)
+Definition targ_state (n : nat) (t : ty) (i : ident) (d : option value) (rid : N) (s : st) : st :=
+  let loc := mkR (current_file s) (r_lo (i_rng i)) (r_hi (i_rng i)) in
+  match index_ty t s with
+  | (None, s1) => s1
+  | (Some typ, s1) =>
+    let lf := mkLeaf LTArg (i_name i) typ match d with Some _ => true | None => false end loc in
+    let s3 := snd (record_mut rid (rec_add_targ (i_name i) (lenN (s_leaves s1))) (snd (add_leaf lf s1))) in
+    match d with Some v => snd (index_value n v s3) | None => s3 end
+  end.
+Lemma targ_state_eq : forall n t i d rid s, current_record_id s = Some rid -> nthN (s_recs s) rid <> None ->
+    snd (index_targ n (TArg t i d) s) = targ_state n t i d rid s.
+Proof.
+  intros n t i d rid s Hc Hv. unfold targ_state, index_targ.
+  unfold bind at 1. unfold here at 1, get. cbn [fst snd].
+  unfold bind at 1.
+  pose proof (keeps_index_ty t s) as Hk.
+  destruct (index_ty t s) as [[typ|] s1]; cbn [fst snd] in *; [|reflexivity].
+  set (lf := mkLeaf LTArg (i_name i) typ match d with Some _ => true | None => false end
+                    (mkR (current_file s) (r_lo (i_rng i)) (r_hi (i_rng i)))).
+  unfold bind at 1.
+  assert (Ea : add_leaf lf s1 = (Some (lenN (s_leaves s1)), snd (add_leaf lf s1))) by reflexivity.
+  rewrite Ea. cbn [fst snd].
+  unfold bind at 1. unfold state at 1, get. cbn [fst snd].
+  assert (Hc1 : current_record_id (snd (add_leaf lf s1)) = Some rid).
+  { unfold current_record_id in *. rewrite (keeps_add_leaf lf s1), Hk. exact Hc. }
+  rewrite Hc1. unfold seq. destruct d as [v|]; reflexivity.
+Qed.
+
+Lemma targ_sim : forall n a f e s rid,
+    frag_targ a = true -> RB f e s rid -> Pre2g f e s ->
+    forallb resolved (fst (spec_targ f e a)) = true ->
+    s_bad (snd (index_targ n a s)) = false ->
+    ResR f s (snd (index_targ n a s)) (fst (spec_targ f e a)) (snd (spec_targ f e a)) rid.
+Proof.
+  intros n [t i d] f e s rid Hf R G HR Hb.
+  destruct (RB_valid _ _ _ _ R) as [rc Hrc].
+  rewrite (targ_state_eq n t i d rid s (RB_current _ _ _ _ R)) in * by congruence.
+  change (spec_targ f e (TArg t i d)) with
+    (spec_ty f e t ++ match d with Some v => spec_value f (add_targ e (i_name i) (at_file f (i_rng i))) v | None => [] end,
+     add_targ e (i_name i) (at_file f (i_rng i))) in *.
+  simpl in HR, Hf |- *. set (e1 := add_targ e (i_name i) (at_file f (i_rng i))) in *.
+  rewrite forallb_app in HR. apply andb_true_iff in HR. destruct HR as [HRt HRv].
+  unfold targ_state in *.
+  set (loc := mkR (current_file s) (r_lo (i_rng i)) (r_hi (i_rng i))) in *.
+  assert (Hloc : loc = at_file f (i_rng i)) by (unfold loc, at_file; now rewrite (g_file f e s G)).
+  pose proof (RB_Pre _ _ _ _ R G) as P.
+  pose proof (ty_sim t f e s P HRt) as St. pose proof (ty_sim_some t f e s P HRt) as Hts.
+  destruct (index_ty t s) as [[typ|] s1] eqn:Et; [|simpl in Hts; congruence]. simpl in St.
+  pose proof (ResR_of_Step f e s s1 _ rid St R G) as R1. pose proof R1 as [_ _ Rb1 G1].
+  set (lf := mkLeaf LTArg (i_name i) typ match d with Some _ => true | None => false end loc) in *.
+  pose proof (RB_add_targ f e s1 rid lf Rb1 G1) as R2.
+  assert (Ee : add_targ e (lf_name lf) (lf_loc lf) = e1) by (unfold e1, lf; simpl; now rewrite Hloc).
+  rewrite Ee in R2. simpl in R2.
+  set (s3 := snd (record_mut rid (rec_add_targ (i_name i) (lenN (s_leaves s1))) (snd (add_leaf lf s1)))) in *.
+  pose proof R2 as [_ _ Rb3 G3].
+  destruct d as [v|]; simpl in Hf, HRv |- *.
+  - eapply ResR_trans; [exact R1|]. change (spec_value f e1 v) with ([] ++ spec_value f e1 v).
+    eapply ResR_trans; [exact R2|]. apply value_ResR; assumption.
+  - rewrite app_nil_r. rewrite <- (app_nil_r (spec_ty f e t)). eapply ResR_trans; [exact R1|exact R2].
+Qed.
+
+Lemma targs_sim : forall n l f e s rid,
+    forallb frag_targ l = true -> RB f e s rid -> Pre2g f e s ->
+    forallb resolved (fst (spec_targs f e l)) = true ->
+    s_bad (snd (iterM (index_targ n) l s)) = false ->
+    ResR f s (snd (iterM (index_targ n) l s)) (fst (spec_targs f e l)) (snd (spec_targs f e l)) rid.
+Proof.
+  intros n l. induction l as [|a r IHl]; intros f e s rid Hf R G HR Hb.
+  - simpl. split; auto.
+  - simpl in Hf. apply andb_true_iff in Hf. destruct Hf as [Hf1 Hf2].
+    simpl in HR, Hb |- *. unfold seq in *.
+    destruct (spec_targ f e a) as [ev1 e1] eqn:E1. destruct (spec_targs f e1 r) as [ev2 e2] eqn:E2. simpl in *.
+    rewrite forallb_app in HR. apply andb_true_iff in HR. destruct HR as [HR1 HR2].
+    assert (BMi : forall x, resp BadMono (index_targ n x)).
+    { intros x. apply (r_index_targ BadMono BM_refl BM_trans); bm_prim. }
+    assert (Hb1 : s_bad (snd (index_targ n a s)) = false).
+    { eapply (bad_false_before _ (iterM (index_targ n) r)); [|exact Hb].
+      apply (resp_iterM BadMono BM_refl BM_trans). intros; apply BMi. }
+    pose proof (targ_sim n a f e s rid Hf1 R G) as R1. rewrite E1 in R1. simpl in R1. specialize (R1 HR1 Hb1).
+    pose proof R1 as [_ _ Rb1 G1].
+    pose proof (IHl f e1 _ rid Hf2 Rb1 G1) as R2. rewrite E2 in R2. simpl in R2. specialize (R2 HR2 Hb).
+    eapply ResR_trans; eassumption.
+Qed.
+
+(** ---- starting a record: `add_record` then the pushed record scope *)
+Lemma parents_nil_rec : forall n s rid, current_record_id s = Some rid -> snd (index_parents n [] s) = s.
+Proof. intros n s rid H. unfold index_parents, bind, state, get; simpl. rewrite H. reflexivity. Qed.
+
+Lemma add_record_facts : forall nm cls loc s,
+    let s1 := snd (add_record nm cls loc s) in
+    s_scopes s1 = s_scopes s /\ s_mcs s1 = s_mcs s /\ s_leaves s1 = s_leaves s /\ s_trace s1 = s_trace s /\
+    s_recs s1 = s_recs s ++ [mkRec nm cls [] [] [] loc] /\ s_uses s1 = s_uses s /\ nf s1 = nf s /\
+    s_nmc s1 = s_nmc s /\ s_ndset s1 = s_ndset s /\
+    (if cls then s_nclass s1 = (nm, lenN (s_recs s)) :: s_nclass s /\ s_ndef s1 = s_ndef s
+     else s_ndef s1 = (nm, lenN (s_recs s)) :: s_ndef s /\ s_nclass s1 = s_nclass s) /\
+    s_bad s1 = s_bad s.
+Proof.
+  intros nm cls loc s s1. unfold s1, add_record; simpl. unfold add_pos, nf.
+  destruct (rng_empty loc); destruct cls; simpl; repeat split; auto.
+Qed.
+
+Lemma define_loc_app_rec : forall s s1 r sym d,
+    s_recs s1 = s_recs s ++ [r] -> s_mcs s1 = s_mcs s -> s_leaves s1 = s_leaves s ->
+    define_loc s sym = Some d -> define_loc s1 sym = Some d.
+Proof.
+  intros s s1 r sym d Hr Hm Hl H. destruct sym; simpl in *.
+  - rewrite Hr. destruct (nthN (s_recs s) i) eqn:E; [|discriminate]. now rewrite (nthN_app_some _ _ [r] _ _ E).
+  - now rewrite Hm.
+  - now rewrite Hl.
+Qed.
+
+Lemma Pre2g_add_record : forall f e s nm (cls : bool) loc flds,
+    Pre2g f e s ->
+    Pre2g f (if cls then set_cls e nm (mkCi loc flds) else set_def e nm loc) (snd (add_record nm cls loc s)).
+Proof.
+  intros f e s nm cls loc flds [F D1 D2 S1 S2 C1 C2 M1 M2].
+  destruct (add_record_facts nm cls loc s) as (Hsc & Hm & Hl & Ht & Hr & _ & _ & Hmc & Hds & Hn & _).
+  set (s1 := snd (add_record nm cls loc s)) in *.
+  assert (DL : forall sym d, define_loc s sym = Some d -> define_loc s1 sym = Some d)
+    by (intros; eapply define_loc_app_rec; eassumption).
+  assert (Hnew : define_loc s1 (SyRecord (lenN (s_recs s))) = Some loc).
+  { simpl. rewrite Hr, nthN_app_last. reflexivity. }
+  assert (HF : current_file s1 = f) by (unfold current_file in *; now rewrite Ht).
+  destruct cls; destruct Hn as [Hn1 Hn2].
+  - (* class *)
+    split; [exact HF| | | | | | | |].
+    + intros n0 d H. destruct (D1 n0 d H) as [id [A B]]. exists id. unfold find_def in *. rewrite Hn2. split; [exact A|exact (DL _ _ B)].
+    + intros n0 H. unfold find_def in *. rewrite Hn2. now apply D2.
+    + intros n0 d H. destruct (S1 n0 d H) as [id [A B]]. exists id. unfold find_defset in *. rewrite Hds. split; [exact A|exact (DL _ _ B)].
+    + intros n0 H. unfold find_defset in *. rewrite Hds. now apply S2.
+    + intros n0 d H. unfold lookup_class, set_cls in H. simpl in H.
+      unfold class_view, find_class. rewrite Hn1. simpl.
+      destruct (name_eqb n0 nm).
+      * simpl in H. injection H as <-. exact Hnew.
+      * specialize (C1 n0 d H). unfold class_view, find_class in C1.
+        destruct (alookup n0 (s_nclass s)) as [id|]; [|discriminate]. apply (DL (SyRecord id) d C1).
+    + intros n0 H. unfold lookup_class, set_cls in H. simpl in H. unfold find_class. rewrite Hn1. simpl.
+      destruct (name_eqb n0 nm); [discriminate|]. now apply C2.
+    + intros n0 d H. specialize (M1 n0 d H). unfold mc_view, find_multiclass in *. now rewrite Hmc, Hm.
+    + intros n0 H. unfold find_multiclass in *. rewrite Hmc. now apply M2.
+  - (* def *)
+    split; [exact HF| | | | | | | |].
+    + intros n0 d H. unfold set_def in H. simpl in H. unfold find_def. rewrite Hn1. simpl.
+      destruct (name_eqb n0 nm).
+      * injection H as <-. exists (lenN (s_recs s)). split; [reflexivity|exact Hnew].
+      * destruct (D1 n0 d H) as [id [A B]]. exists id. split; [exact A|exact (DL _ _ B)].
+    + intros n0 H. unfold set_def in H. simpl in H. unfold find_def. rewrite Hn1. simpl.
+      destruct (name_eqb n0 nm); [discriminate|]. now apply D2.
+    + intros n0 d H. destruct (S1 n0 d H) as [id [A B]]. exists id. unfold find_defset in *. rewrite Hds. split; [exact A|exact (DL _ _ B)].
+    + intros n0 H. unfold find_defset in *. rewrite Hds. now apply S2.
+    + intros n0 d H. specialize (C1 n0 d H). unfold class_view, find_class in *. rewrite Hn2.
+      destruct (alookup n0 (s_nclass s)) as [id|]; [|discriminate]. apply (DL (SyRecord id) d C1).
+    + intros n0 H. unfold find_class in *. rewrite Hn2. now apply C2.
+    + intros n0 d H. specialize (M1 n0 d H). unfold mc_view, find_multiclass in *. now rewrite Hmc, Hm.
+    + intros n0 H. unfold find_multiclass in *. rewrite Hmc. now apply M2.
+Qed.
+
+(** the record-body relation at the start of the body *)
+Lemma RB_start : forall f e e0 s s1 rid nm cls loc,
+    Pre2 f e s -> Stat s -> e_frames e0 = e_frames e ->
+    s_scopes s1 = s_scopes s -> s_mcs s1 = s_mcs s -> s_leaves s1 = s_leaves s ->
+    s_recs s1 = s_recs s ++ [mkRec nm cls [] [] [] loc] -> rid = lenN (s_recs s) ->
+    RB f (push_vars e0 []) (pushed (KRecord rid) s1) rid.
+Proof.
+  intros f e e0 s s1 rid nm cls loc [F L1 L2 _ _ _ _ _ _ _ _] [Hnr _ _] Hfe Hsc Hm Hl Hr ->.
+  apply (mkRB f _ _ _ [] (s_scopes s1) (mkFrame [] [] []) (e_frames e0) (mkRec nm cls [] [] [] loc)); auto.
+  - unfold pushed; simpl. rewrite Hr. apply nthN_app_last.
+  - intros n0. reflexivity.
+  - intros n0. reflexivity.
+  - intros n0. reflexivity.
+  - intros n0 d H. rewrite Hfe in H. destruct (L1 n0 d H) as [sym [A B]]. exists sym. split.
+    + rewrite <- A. unfold find_local; simpl. rewrite Hsc.
+      assert (G : forall l, find_map sc_record_id l = None ->
+                            find_map (fun c => scope_find (set_scopes (s_scopes s) (pushed (KRecord (lenN (s_recs s))) s1)) c n0) l
+                            = find_map (fun c => scope_find s c n0) l).
+      { induction l as [|c r IHl]; intros Hn; simpl; [reflexivity|]. simpl in Hn.
+        destruct (sc_record_id c) eqn:Ec; [discriminate|].
+        assert (E : scope_find (set_scopes (s_scopes s) (pushed (KRecord (lenN (s_recs s))) s1)) c n0 = scope_find s c n0).
+        { unfold scope_find. destruct (sc_find_variable c n0); [reflexivity|].
+          unfold sc_record_id in Ec. destruct (sc_kind c); try reflexivity; try discriminate. simpl. now rewrite Hm. }
+        rewrite E. destruct (scope_find s c n0); [reflexivity|]. now apply IHl. }
+      apply G. exact Hnr.
+    + change (define_loc s1 sym = Some d). eapply define_loc_app_rec; eassumption.
+  - intros n0 H. rewrite Hfe in H. rewrite <- (L2 n0 H). unfold find_local; simpl. rewrite Hsc.
+    assert (G : forall l, find_map sc_record_id l = None ->
+                          find_map (fun c => scope_find (set_scopes (s_scopes s) (pushed (KRecord (lenN (s_recs s))) s1)) c n0) l
+                          = find_map (fun c => scope_find s c n0) l).
+    { induction l as [|c r IHl]; intros Hn; simpl; [reflexivity|]. simpl in Hn.
+      destruct (sc_record_id c) eqn:Ec; [discriminate|].
+      assert (E : scope_find (set_scopes (s_scopes s) (pushed (KRecord (lenN (s_recs s))) s1)) c n0 = scope_find s c n0).
+      { unfold scope_find. destruct (sc_find_variable c n0); [reflexivity|].
+        unfold sc_record_id in Ec. destruct (sc_kind c); try reflexivity; try discriminate. simpl. now rewrite Hm. }
+      rewrite E. destruct (scope_find s c n0); [reflexivity|]. now apply IHl. }
+    apply G. exact Hnr.
+  - unfold current_record_id in *; simpl. now rewrite Hsc.
+Qed.
+
+Lemma same_globals_spec_targs : forall f l e, same_globals e (snd (spec_targs f e l)).
+Proof.
+  intros f l. induction l as [|[t i d] r IH]; intros e; simpl; [apply same_globals_refl|].
+  destruct (spec_targs f (add_targ e (i_name i) (at_file f (i_rng i))) r) as [ev2 e2] eqn:E. simpl.
+  eapply same_globals_trans; [apply same_globals_add_targ|]. specialize (IH (add_targ e (i_name i) (at_file f (i_rng i)))).
+  rewrite E in IH. exact IH.
+Qed.
+Lemma same_globals_spec_items : forall f l e, same_globals e (snd (spec_items f e l)).
+Proof.
+  intros f l. induction l as [|it r IH]; intros e; simpl; [apply same_globals_refl|].
+  destruct (spec_item f e it) as [ev1 e1] eqn:E1. destruct (spec_items f e1 r) as [ev2 e2] eqn:E2. simpl.
+  assert (G1 : same_globals e e1).
+  { destruct it; simpl in E1; injection E1 as _ <-;
+      first [apply same_globals_add_field|apply same_globals_add_var|apply same_globals_refl]. }
+  eapply same_globals_trans; [exact G1|]. specialize (IH e1). rewrite E2 in IH. exact IH.
+Qed.
+
+Lemma spec_class_nopar : forall f e i targs b,
+    spec_stmt f e (SClass i targs [] b)
+    = let loc := at_file f (i_rng i) in
+      let e1 := push_vars (set_cls e (i_name i) (mkCi loc [])) [] in
+      let '(ev1, e2) := match targs with Some l => spec_targs f e1 l | None => ([], e1) end in
+      let '(ev3, e4) := spec_items f e2 b in
+      (ev1 ++ ev3, set_cls e (i_name i) (mkCi loc (top_fields e4))).
+Proof.
+  intros. simpl. destruct (match targs with Some l => spec_targs f _ l | None => _ end) as [ev1 e2].
+  destruct (spec_items f e2 b) as [ev3 e4]. reflexivity.
+Qed.
+
+Lemma Pre2g_pushed : forall f e s k, Pre2g f e s -> Pre2g f (push_vars e []) (pushed k s).
+Proof. intros f e s k [F D1 D2 S1 S2 C1 C2 M1 M2]. split; auto. Qed.
+
+Section CasesB5.
+  Variable files : list (list stmt).
+  Variable n : nat.
+
+  Lemma BM_class_body : forall rid (targs : option (list targ)) ps b,
+      resp BadMono (scoped (KRecord rid)
+                      (seq (match targs with Some l => iterM (index_targ n) l | None => ret tt end)
+                           (index_record_body n ps b))).
+  Proof.
+    intros rid targs ps b. apply (r_scoped BadMono BM_refl BM_trans); [bm_prim|bm_prim|].
+    apply (resp_seq BadMono BM_trans).
+    - destruct targs as [l|]; [|apply (resp_ret BadMono BM_refl)].
+      apply (resp_iterM BadMono BM_refl BM_trans). intros x _. apply (r_index_targ BadMono BM_refl BM_trans); bm_prim.
+    - apply (r_record_body BadMono BM_refl BM_trans); bm_prim.
+  Qed.
+
+  Lemma caseB_class : forall i targs b f e s,
+      match targs with Some l => forallb frag_targ l | None => true end = true -> forallb frag_item b = true ->
+      Pre2 f e s -> Stat s -> e_frames e <> [] ->
+      forallb resolved (fst (spec_stmt f e (SClass i targs [] b))) = true ->
+      s_bad (snd (index_stmt files (S n) (SClass i targs [] b) s)) = false ->
+      ResB f s (snd (index_stmt files (S n) (SClass i targs [] b) s))
+           (fst (spec_stmt f e (SClass i targs [] b))) (snd (spec_stmt f e (SClass i targs [] b))).
+  Proof.
+    intros i targs b f e s Hft Hfb P T He HR Hb.
+    pose proof (finish_block_like files (S n) (SClass i targs [] b) f e) as FIN.
+    set (final := snd (index_stmt files (S n) (SClass i targs [] b) s)) in *.
+    rewrite spec_class_nopar in *. cbv zeta in HR |- *.
+    set (loc := at_file f (i_rng i)) in *.
+    set (e0 := set_cls e (i_name i) (mkCi loc [])) in *.
+    set (e1 := push_vars e0 []) in *.
+    destruct (match targs with Some l => spec_targs f e1 l | None => ([], e1) end) as [ev1 e2] eqn:Et.
+    destruct (spec_items f e2 b) as [ev3 e4] eqn:Ei. simpl in HR |- *.
+    rewrite forallb_app in HR. apply andb_true_iff in HR. destruct HR as [HR1 HR3].
+    (* the model *)
+    set (mloc := mkR (current_file s) (r_lo (i_rng i)) (r_hi (i_rng i))).
+    assert (Hloc : mloc = loc) by (unfold mloc, loc, at_file; now rewrite (p2_file f e s P)).
+    set (s1 := snd (add_record (i_name i) true mloc s)).
+    set (rid := lenN (s_recs s)).
+    set (body := seq (match targs with Some l => iterM (index_targ n) l | None => ret tt end) (index_record_body n [] b)).
+    assert (Efin : final = snd (scoped (KRecord rid) body s1)).
+    { unfold final. simpl. unfold bind at 1. unfold here, get. simpl. unfold bind at 1. reflexivity. }
+    rewrite Efin in Hb |- *.
+    destruct (add_record_facts (i_name i) true mloc s) as (Hsc & Hm & Hl & Ht & Hr & Hu & Hn & Hmc & Hds & [Hnc Hnd] & Hbd).
+    fold s1 in Hsc, Hm, Hl, Ht, Hr, Hu, Hn, Hmc, Hds, Hnc, Hnd, Hbd.
+    assert (Hb' := Hb). apply scoped_bad in Hb'.
+    (* relation at the start of the body *)
+    assert (R0 : RB f e1 (pushed (KRecord rid) s1) rid).
+    { apply (RB_start f e e0 s s1 rid (i_name i) true mloc); auto. }
+    assert (G0 : Pre2g f e1 (pushed (KRecord rid) s1)).
+    { apply Pre2g_pushed. unfold e0. rewrite <- Hloc.
+      apply (Pre2g_add_record f e s (i_name i) true mloc []). now apply Pre2_g. }
+    unfold body, seq in Hb'.
+    (* template arguments *)
+    set (st := snd ((match targs with Some l => iterM (index_targ n) l | None => ret tt end) (pushed (KRecord rid) s1))) in *.
+    assert (Hbt : s_bad st = false).
+    { eapply (bad_false_before _ (index_record_body n [] b)); [|exact Hb'].
+      apply (r_record_body BadMono BM_refl BM_trans); bm_prim. }
+    assert (R1 : ResR f (pushed (KRecord rid) s1) st ev1 e2 rid).
+    { unfold st. destruct targs as [l|]; simpl in Et |- *.
+      - pose proof (targs_sim n l f e1 (pushed (KRecord rid) s1) rid Hft R0 G0) as X.
+        rewrite Et in X. simpl in X. apply X; auto.
+      - injection Et as <- <-. split; auto. }
+    pose proof R1 as [U1 N1 Rb1 G1].
+    (* parents: none; items *)
+    unfold index_record_body, seq in Hb'. rewrite (parents_nil_rec n st rid (RB_current _ _ _ _ Rb1)) in Hb'.
+    pose proof (items_sim n b f e2 st rid Hfb Rb1 G1) as R3. rewrite Ei in R3. simpl in R3. specialize (R3 HR3 Hb').
+    destruct R3 as [U3 N3 Rb3 G3].
+    set (s3 := snd (iterM (index_item n) b st)) in *.
+    assert (Ebody : snd (body (pushed (KRecord rid) s1)) = s3).
+    { unfold body, seq, index_record_body, seq. fold st. rewrite (parents_nil_rec n st rid (RB_current _ _ _ _ Rb1)). reflexivity. }
+    destruct (grows_class_body n targs [] b (pushed (KRecord rid) s1)) as [vs Hvs]. fold body in Hvs.
+    rewrite <- Efin. unfold final.
+    eapply (FIN e4 _ s s3 (ev1 ++ ev3)); auto.
+    - (* globals: the class table differs only in the field list of the class itself *)
+      assert (GG : same_globals e1 e4).
+      { eapply same_globals_trans; [|pose proof (same_globals_spec_items f b e2) as X; rewrite Ei in X; exact X].
+        destruct targs as [l|]; simpl in Et; [pose proof (same_globals_spec_targs f l e1) as X; rewrite Et in X; exact X|].
+        injection Et as _ <-. apply same_globals_refl. }
+      destruct GG as (A & B & C & D). repeat split; auto.
+      intros nm. unfold lookup_class. rewrite A. unfold e1, e0, set_cls. simpl.
+      destruct (name_eqb nm (i_name i)); reflexivity.
+    - change (same_but_scopes final s3). rewrite Efin.
+      rewrite (scoped_final _ (KRecord rid) body s1 vs Hvs). rewrite Ebody. apply sbs_set_scopes.
+    - rewrite U3, U1. simpl. rewrite Hu, rev_app_distr, app_assoc. reflexivity.
+    - rewrite N3, N1. unfold nf, pushed; simpl. fold (nf s1). exact Hn.
+  Qed.
+End CasesB5.
+
+Lemma Pre2g_app_rec : forall f e s s1 r,
+    Pre2g f e s -> s_recs s1 = s_recs s ++ [r] -> s_mcs s1 = s_mcs s -> s_leaves s1 = s_leaves s ->
+    s_trace s1 = s_trace s -> s_nclass s1 = s_nclass s -> s_ndef s1 = s_ndef s -> s_nmc s1 = s_nmc s ->
+    s_ndset s1 = s_ndset s -> Pre2g f e s1.
+Proof.
+  intros f e s s1 r [F D1 D2 S1 S2 C1 C2 M1 M2] Hr Hm Hl Ht Hc Hd Hmc Hds.
+  assert (DL : forall sym d, define_loc s sym = Some d -> define_loc s1 sym = Some d)
+    by (intros; eapply define_loc_app_rec; eassumption).
+  split.
+  - unfold current_file in *. now rewrite Ht.
+  - intros n0 d H. destruct (D1 n0 d H) as [id [A B]]. exists id. unfold find_def in *. rewrite Hd.
+    split; [exact A|exact (DL _ _ B)].
+  - intros n0 H. unfold find_def in *. rewrite Hd. now apply D2.
+  - intros n0 d H. destruct (S1 n0 d H) as [id [A B]]. exists id. unfold find_defset in *. rewrite Hds.
+    split; [exact A|exact (DL _ _ B)].
+  - intros n0 H. unfold find_defset in *. rewrite Hds. now apply S2.
+  - intros n0 d H. specialize (C1 n0 d H). unfold class_view, find_class in *. rewrite Hc.
+    destruct (alookup n0 (s_nclass s)) as [id|]; [|discriminate]. exact (DL (SyRecord id) d C1).
+  - intros n0 H. unfold find_class in *. rewrite Hc. now apply C2.
+  - intros n0 d H. specialize (M1 n0 d H). unfold mc_view, find_multiclass in *. now rewrite Hmc, Hm.
+  - intros n0 H. unfold find_multiclass in *. rewrite Hmc. now apply M2.
+Qed.
+
+Lemma spec_def_nopar : forall f e nm r b,
+    spec_stmt f e (SDef nm r [] b)
+    = let e0 := match name_ident nm with Some i => set_def e (i_name i) (at_file f (i_rng i)) | None => e end in
+      let '(ev3, _) := spec_items f (push_vars e0 []) b in (ev3, e0).
+Proof.
+  intros. simpl. destruct (spec_items f _ b) as [ev3 e4]. reflexivity.
+Qed.
+
+Section CasesB6.
+  Variable files : list (list stmt).
+  Variable n : nat.
+
+  (** a record statement without template arguments and parents, once the record has been allocated *)
+  Lemma record_tail : forall x f e e0 s s1 rid rnm (rcls : bool) rloc b,
+      block_like x = true -> forallb frag_item b = true ->
+      Pre2 f e s -> Stat s -> e_frames e <> [] -> e_frames e0 = e_frames e ->
+      s_scopes s1 = s_scopes s -> s_mcs s1 = s_mcs s -> s_leaves s1 = s_leaves s ->
+      s_recs s1 = s_recs s ++ [mkRec rnm rcls [] [] [] rloc] -> rid = lenN (s_recs s) ->
+      s_uses s1 = s_uses s -> nf s1 = nf s ->
+      Pre2g f e0 s1 ->
+      snd (index_stmt files (S n) x s) = snd (scoped (KRecord rid) (index_record_body n [] b) s1) ->
+      forallb resolved (fst (spec_items f (push_vars e0 []) b)) = true ->
+      s_bad (snd (index_stmt files (S n) x s)) = false ->
+      ResB f s (snd (index_stmt files (S n) x s)) (fst (spec_items f (push_vars e0 []) b)) e0.
+  Proof.
+    intros x f e e0 s s1 rid rnm rcls rloc b Hx Hfb P T He Hfe Hsc Hm Hl Hr Hrid Hu Hn G1 Efin HR Hb.
+    pose proof (finish_block_like files (S n) x f e) as FIN.
+    set (final := snd (index_stmt files (S n) x s)) in *.
+    rewrite Efin in Hb.
+    assert (Hb' := Hb). apply scoped_bad in Hb'.
+    assert (R0 : RB f (push_vars e0 []) (pushed (KRecord rid) s1) rid)
+      by (apply (RB_start f e e0 s s1 rid rnm rcls rloc); auto).
+    assert (G0 : Pre2g f (push_vars e0 []) (pushed (KRecord rid) s1)) by (now apply Pre2g_pushed).
+    unfold index_record_body, seq in Hb'.
+    rewrite (parents_nil_rec n _ rid (RB_current _ _ _ _ R0)) in Hb'.
+    destruct (spec_items f (push_vars e0 []) b) as [ev3 e4] eqn:Ei.
+    pose proof (items_sim n b f (push_vars e0 []) (pushed (KRecord rid) s1) rid Hfb R0 G0) as R3.
+    rewrite Ei in R3. simpl in R3, HR |- *. specialize (R3 HR Hb'). destruct R3 as [U3 N3 Rb3 G3].
+    set (s3 := snd (iterM (index_item n) b (pushed (KRecord rid) s1))) in *.
+    assert (Ebody : snd (index_record_body n [] b (pushed (KRecord rid) s1)) = s3).
+    { unfold index_record_body, seq. rewrite (parents_nil_rec n _ rid (RB_current _ _ _ _ R0)). reflexivity. }
+    destruct (grows_record_body n [] b (pushed (KRecord rid) s1)) as [vs Hvs].
+    unfold final.
+    eapply (FIN e4 e0 s s3 ev3); auto.
+    - apply same_globals_equiv.
+      assert (GG : same_globals (push_vars e0 []) e4)
+        by (pose proof (same_globals_spec_items f b (push_vars e0 [])) as X; rewrite Ei in X; exact X).
+      destruct GG as (A & B & C & D). repeat split; auto.
+    - change (same_but_scopes final s3). rewrite Efin.
+      rewrite (scoped_final _ (KRecord rid) _ s1 vs Hvs). rewrite Ebody. apply sbs_set_scopes.
+    - rewrite U3. simpl. now rewrite Hu.
+    - rewrite N3. unfold nf, pushed; simpl. fold (nf s1). exact Hn.
+  Qed.
+End CasesB6.
+
+Section CasesB7.
+  Variable files : list (list stmt).
+  Variable n : nat.
+
+  Lemma caseB_def : forall nm r b f e s,
+      frag_name nm = true -> forallb frag_item b = true ->
+      Pre2 f e s -> Stat s -> e_frames e <> [] ->
+      forallb resolved (fst (spec_stmt f e (SDef nm r [] b))) = true ->
+      s_bad (snd (index_stmt files (S n) (SDef nm r [] b) s)) = false ->
+      ResB f s (snd (index_stmt files (S n) (SDef nm r [] b) s))
+           (fst (spec_stmt f e (SDef nm r [] b))) (snd (spec_stmt f e (SDef nm r [] b))).
+  Proof.
+    intros nm r b f e s Hfn Hfb P T He HR Hb.
+    rewrite spec_def_nopar in *. cbv zeta in HR |- *.
+    destruct nm as [v|].
+    - (* named *)
+      unfold frag_name, is_ident_first in Hfn. rewrite first_ident_eq in Hfn.
+      destruct v as [rv [|[[] sufs] rest]]; simpl in Hfn; try discriminate.
+      simpl name_ident in *. cbv iota in HR |- *.
+      set (e0 := set_def e (i_name i) (at_file f (i_rng i))) in *.
+      destruct (spec_items f (push_vars e0 []) b) as [ev3 e4] eqn:Ei. simpl in HR |- *.
+      set (mloc := mkR (current_file s) (r_lo (i_rng i)) (r_hi (i_rng i))).
+      assert (Hloc : mloc = at_file f (i_rng i)) by (unfold mloc, at_file; now rewrite (p2_file f e s P)).
+      destruct (add_record_facts (i_name i) false mloc s) as (Hsc & Hm & Hl & Ht & Hr & Hu & Hn & Hmc & Hds & [Hnd Hnc] & Hbd).
+      pose proof (record_tail files n (SDef (Some (Val rv (Inner (SId i) sufs :: rest))) r [] b) f e e0 s
+                              (snd (add_record (i_name i) false mloc s)) (lenN (s_recs s)) (i_name i) false mloc b
+                              eq_refl Hfb P T He eq_refl Hsc Hm Hl Hr eq_refl Hu Hn) as X.
+      rewrite Ei in X. simpl in X. apply X; auto.
+      + unfold e0. rewrite <- Hloc. apply (Pre2g_add_record f e s (i_name i) false mloc []). now apply Pre2_g.
+    - (* anonymous *)
+      simpl name_ident in *. cbv iota in HR |- *.
+      destruct (spec_items f (push_vars e []) b) as [ev3 e4] eqn:Ei. simpl in HR |- *.
+      set (mloc := mkR (current_file s) (r_lo r) (r_hi r)).
+      set (s0 := snd (next_anonymous s)).
+      set (s1 := snd (add_anonymous_def [] mloc s0)).
+      pose proof (record_tail files n (SDef None r [] b) f e e s s1 (lenN (s_recs s)) [] false mloc b
+                              eq_refl Hfb P T He eq_refl) as X.
+      rewrite Ei in X. simpl in X. apply X; auto; try reflexivity.
+      + apply (Pre2g_app_rec f e s s1 (mkRec [] false [] [] [] mloc)); try reflexivity. now apply Pre2_g.
+  Qed.
+End CasesB7.
+
+(** ---- defset *)
+Lemma add_defset_facts : forall l s,
+    let s1 := snd (add_defset l s) in
+    s_scopes s1 = s_scopes s /\ s_mcs s1 = s_mcs s /\ s_recs s1 = s_recs s /\ s_trace s1 = s_trace s /\
+    s_leaves s1 = s_leaves s ++ [l] /\ s_uses s1 = s_uses s /\ nf s1 = nf s /\
+    s_nclass s1 = s_nclass s /\ s_ndef s1 = s_ndef s /\ s_nmc s1 = s_nmc s /\
+    s_ndset s1 = (lf_name l, lenN (s_leaves s)) :: s_ndset s.
+Proof.
+  intros l s s1. unfold s1, add_defset; simpl. unfold add_pos, nf. destruct (rng_empty (lf_loc l)); repeat split.
+Qed.
+
+Lemma Pre2_add_defset : forall f e s l,
+    Pre2 f e s -> Pre2 f (set_dset e (lf_name l) (lf_loc l)) (snd (add_defset l s)).
+Proof.
+  intros f e s l [F L1 L2 D1 D2 S1 S2 C1 C2 M1 M2].
+  destruct (add_defset_facts l s) as (Hsc & Hm & Hr & Ht & Hl & _ & _ & Hc & Hd & Hmc & Hds).
+  set (s1 := snd (add_defset l s)) in *.
+  assert (DL : forall sym d, define_loc s sym = Some d -> define_loc s1 sym = Some d).
+  { intros sym d H. destruct sym; simpl in *; [now rewrite Hr|now rewrite Hm|].
+    rewrite Hl. destruct (nthN (s_leaves s) i) eqn:E; [|discriminate]. now rewrite (nthN_app_some _ _ [l] _ _ E). }
+  assert (FL : forall nm, find_local s1 nm = find_local s nm) by (intros; now apply find_local_eq).
+  split.
+  - unfold current_file in *. now rewrite Ht.
+  - intros nm d H. destruct (L1 nm d H) as [sym [A B]]. exists sym. rewrite FL. split; [exact A|exact (DL _ _ B)].
+  - intros nm H. rewrite FL. now apply L2.
+  - intros nm d H. destruct (D1 nm d H) as [id [A B]]. exists id. unfold find_def in *. rewrite Hd.
+    split; [exact A|exact (DL _ _ B)].
+  - intros nm H. unfold find_def in *. rewrite Hd. now apply D2.
+  - intros nm d H. unfold set_dset in H. simpl in H. unfold find_defset. rewrite Hds. simpl.
+    destruct (name_eqb nm (lf_name l)).
+    + injection H as <-. exists (lenN (s_leaves s)). split; [reflexivity|]. simpl. rewrite Hl, nthN_app_last. reflexivity.
+    + destruct (S1 nm d H) as [id [A B]]. exists id. split; [exact A|exact (DL _ _ B)].
+  - intros nm H. unfold set_dset in H. simpl in H. unfold find_defset. rewrite Hds. simpl.
+    destruct (name_eqb nm (lf_name l)); [discriminate|]. now apply S2.
+  - intros nm d H. specialize (C1 nm d H). unfold class_view, find_class in *. now rewrite Hc, Hr.
+  - intros nm H. unfold find_class in *. rewrite Hc. now apply C2.
+  - intros nm d H. specialize (M1 nm d H). unfold mc_view, find_multiclass in *. now rewrite Hmc, Hm.
+  - intros nm H. unfold find_multiclass in *. rewrite Hmc. now apply M2.
+Qed.
+
+Lemma spec_defset : forall f e t i b,
+    spec_stmt f e (SDefset t i b)
+    = let e0 := set_dset e (i_name i) (at_file f (i_rng i)) in
+      let '(ev1, e1) := spec_stmts f (push_vars e0 []) b in (spec_ty f e t ++ ev1, leave e0 e1).
+Proof. intros. simpl. rewrite spec_local. reflexivity. Qed.
+
+Section CasesB8.
+  Variable files : list (list stmt).
+  Variable n : nat.
+  Hypothesis IH : sim_B files n.
+
+  Lemma caseB_defset : forall t i b f e s,
+      fragB_stmts b = true -> Pre2 f e s -> Stat s -> e_frames e <> [] ->
+      forallb resolved (fst (spec_stmt f e (SDefset t i b))) = true ->
+      s_bad (snd (index_stmt files (S n) (SDefset t i b) s)) = false ->
+      ResB f s (snd (index_stmt files (S n) (SDefset t i b) s))
+           (fst (spec_stmt f e (SDefset t i b))) (snd (spec_stmt f e (SDefset t i b))).
+  Proof.
+    intros t i b f e s Hfb P T He HR Hb.
+    pose proof (finish_block_like files (S n) (SDefset t i b) f e) as FIN.
+    set (final := snd (index_stmt files (S n) (SDefset t i b) s)) in *.
+    rewrite spec_defset in *. cbv zeta in HR |- *.
+    set (e0 := set_dset e (i_name i) (at_file f (i_rng i))) in *.
+    destruct (spec_stmts f (push_vars e0 []) b) as [ev1 e1] eqn:Eb. simpl in HR |- *.
+    rewrite forallb_app in HR. apply andb_true_iff in HR. destruct HR as [HRt HR1].
+    set (mloc := mkR (current_file s) (r_lo (i_rng i)) (r_hi (i_rng i))).
+    assert (Hloc : mloc = at_file f (i_rng i)) by (unfold mloc, at_file; now rewrite (p2_file f e s P)).
+    pose proof (Pre2_Pre _ _ _ P) as P0.
+    pose proof (ty_sim t f e s P0 HRt) as St. pose proof (ty_sim_some t f e s P0 HRt) as Hts.
+    assert (Efin : final = match index_ty t s with
+                           | (Some typ, s1) =>
+                             let l := mkLeaf LDefset (i_name i) typ false mloc in
+                             snd (scoped (KDefset (lenN (s_leaves s1))) (iterM (index_stmt files n) b) (snd (add_defset l s1)))
+                           | (None, s1) => s1
+                           end).
+    { unfold final. simpl. unfold bind at 1. unfold here, get. simpl. unfold bind at 1.
+      destruct (index_ty t s) as [[typ|] s1]; [|reflexivity]. simpl. unfold bind at 1. reflexivity. }
+    destruct (index_ty t s) as [[typ|] s1] eqn:Et; [|simpl in Hts; congruence]. simpl in St.
+    cbv zeta in Efin. set (l := mkLeaf LDefset (i_name i) typ false mloc) in *.
+    set (k := KDefset (lenN (s_leaves s1))) in *. set (s2 := snd (add_defset l s1)) in *.
+    rewrite Efin in Hb |- *.
+    pose proof (ResB_of_Step f e s s1 _ St P T He) as [U0 N0 _ P1 T1 _].
+    destruct (add_defset_facts l s1) as (Hsc & Hm & Hr & Ht & Hl & Hu & Hn & Hc & Hd & Hmc & Hds). fold s2 in Hsc, Hm, Hu, Hn.
+    assert (P2 : Pre2 f e0 s2).
+    { pose proof (Pre2_add_defset f e s1 l P1) as X.
+      assert (Ee : set_dset e (lf_name l) (lf_loc l) = e0) by (unfold e0, l; simpl; now rewrite Hloc).
+      rewrite Ee in X. exact X. }
+    assert (T2 : Stat s2) by (eapply Stat_same_scopes; eassumption).
+    assert (Hb3 := Hb). apply scoped_bad in Hb3.
+    pose proof (stmtsB_sim files n IH b f (push_vars e0 []) (pushed k s2) Hfb
+                           (Pre2_pushed f e0 s2 k P2 eq_refl) (Stat_pushed k s2 T2 eq_refl)) as R3.
+    rewrite Eb in R3. simpl in R3. destruct R3 as [U3 N3 [vs Sc3] P4 T4 F4]; auto; [discriminate|].
+    rewrite <- Efin. unfold final.
+    eapply (FIN e1 (leave e0 e1) s (snd (iterM (index_stmt files n) b (pushed k s2))) (spec_ty f e t ++ ev1)); auto.
+    - apply same_globals_equiv, same_globals_leave.
+    - now apply Pre2_g.
+    - change (same_but_scopes final (snd (iterM (index_stmt files n) b (pushed k s2)))).
+      rewrite Efin. erewrite (scoped_final _ _ _ s2 vs); [apply sbs_set_scopes|exact Sc3].
+    - rewrite U3. simpl. rewrite Hu, U0, rev_app_distr, app_assoc. reflexivity.
+    - rewrite N3. unfold nf, pushed; simpl. fold (nf s2). rewrite Hn, N0. reflexivity.
+  Qed.
+End CasesB8.
+
+(** ---------------------------------------------------------------------------------------------
+    multiclass: the template arguments live in the multiclass, the body statements in its scope *)
+Inductive MB (f : N) (e : env) (s : st) (mid : N) : Prop :=
+| mkMB : forall (tail : list scope) (fr : frame) (frs : list frame) (mc : mcd),
+    s_scopes s = mkScope (KMulticlass mid) [] :: tail ->
+    e_frames e = fr :: frs -> fr_vars fr = [] -> fr_fields fr = [] ->
+    nthN (s_mcs s) mid = Some mc ->
+    AL s (mc_targs mc) (fr_targs fr) ->
+    (forall nm d, first_some (frame_lookup nm) frs = Some d ->
+                  exists sym, find_local (set_scopes tail s) nm = Some sym /\ define_loc s sym = Some d) ->
+    (forall nm, first_some (frame_lookup nm) frs = None -> find_local (set_scopes tail s) nm = None) ->
+    current_record_id (set_scopes tail s) = None ->
+    (forall c, In c tail -> sc_kind c <> KMulticlass mid) ->
+    mc_scopes_valid (set_scopes tail s) ->
+    MB f e s mid.
+
+Lemma MB_Pre2 : forall f e s mid, MB f e s mid -> Pre2g f e s -> Pre2 f e s.
+Proof.
+  intros f e s mid [t fr frs mc Hsc Hfe Hv Hfl Hmc At T1 T2 T3 T4 T5] [F D1 D2 S1 S2 C1 C2 M1 M2].
+  assert (SF : forall nm, scope_find s (mkScope (KMulticlass mid) []) nm = option_map SyLeaf (alookup nm (mc_targs mc))).
+  { intros nm. unfold scope_find, sc_find_variable. cbn [sc_kind sc_vars alookup]. now rewrite Hmc. }
+  split; auto.
+  - intros nm d H. unfold locals_of in H. rewrite Hfe in H. simpl in H.
+    rewrite (find_local_cons s _ t nm Hsc), SF. unfold frame_lookup in H. rewrite Hv, Hfl in H. simpl in H.
+    specialize (At nm). destruct (alookup nm (mc_targs mc)) as [y|]; simpl.
+    + destruct At as [lf [A B]]. rewrite B in H. injection H as <-. exists (SyLeaf y). simpl. now rewrite A.
+    + rewrite At in H. apply T1. exact H.
+  - intros nm H. unfold locals_of in H. rewrite Hfe in H. simpl in H.
+    rewrite (find_local_cons s _ t nm Hsc), SF. unfold frame_lookup in H. rewrite Hv, Hfl in H. simpl in H.
+    specialize (At nm). destruct (alookup nm (mc_targs mc)) as [y|]; [destruct At as [lf [A B]]; rewrite B in H; discriminate|].
+    rewrite At in H. simpl. apply T2. exact H.
+Qed.
+
+Lemma MB_Stat : forall f e s mid, MB f e s mid -> Stat s.
+Proof.
+  intros f e s mid [t fr frs mc Hsc Hfe Hv Hfl Hmc At T1 T2 T3 T4 T5]. split.
+  - unfold current_record_id in *. rewrite Hsc. simpl in *. exact T3.
+  - intros c m Hin Hk. rewrite Hsc in Hin. destruct Hin as [<-|Hin].
+    + simpl in Hk. injection Hk as <-. congruence.
+    + apply (T5 c m); [exact Hin|exact Hk].
+  - rewrite Hsc. discriminate.
+Qed.
+
+Lemma MB_VR : forall f e s s' mid, MB f e s mid -> VR s s' -> s_scopes s' = s_scopes s -> MB f e s' mid.
+Proof.
+  intros f e s s' mid [t fr frs mc Hsc Hfe Hv Hfl Hmc At T1 T2 T3 T4 T5] V Hs.
+  pose proof V as (Hr & Hm & Hc & Hd & Hmcn & Hds & Ht & Hl).
+  apply (mkMB f e s' mid t fr frs mc); auto.
+  - now rewrite Hs.
+  - now rewrite Hm.
+  - now apply (AL_ext s s').
+  - intros nm d H. destruct (T1 nm d H) as [sym [A B]]. exists sym.
+    rewrite (find_local_tail_eq t s s' nm Hm T3). split; [exact A|now apply (define_loc_ext s s')].
+  - intros nm H. rewrite (find_local_tail_eq t s s' nm Hm T3). now apply T2.
+  - intros c m Hin Hk. simpl. rewrite Hm. apply (T5 c m Hin Hk).
+Qed.
+
+(** the multiclass [mid] gets a template argument *)
+Definition mc_update (s s' : st) (mid : N) (g : mcd -> mcd) : Prop :=
+  s_scopes s' = s_scopes s /\ s_recs s' = s_recs s /\ s_trace s' = s_trace s /\
+  s_nclass s' = s_nclass s /\ s_ndef s' = s_ndef s /\ s_nmc s' = s_nmc s /\ s_ndset s' = s_ndset s /\
+  (exists ext, s_leaves s' = s_leaves s ++ ext) /\
+  s_mcs s' = set_nth (N.to_nat mid) g (s_mcs s).
+
+Lemma define_loc_mc_update : forall s s' mid g sym d,
+    mc_update s s' mid g -> (forall m, mc_loc (g m) = mc_loc m) ->
+    define_loc s sym = Some d -> define_loc s' sym = Some d.
+Proof.
+  intros s s' mid g sym d (Hs & Hr & _ & _ & _ & _ & _ & [ext Hl] & Hm) Hg H. destruct sym; simpl in *.
+  - now rewrite Hr.
+  - rewrite Hm, nthN_set_nth. destruct (N.eqb mid i); [|exact H].
+    destruct (nthN (s_mcs s) i); simpl in *; [|discriminate]. now rewrite Hg.
+  - rewrite Hl. destruct (nthN (s_leaves s) i) eqn:E; [|discriminate]. now rewrite (nthN_app_some _ _ ext _ _ E).
+Qed.
+
+Lemma Pre2g_mc_update : forall f e s s' mid g,
+    Pre2g f e s -> mc_update s s' mid g -> (forall m, mc_loc (g m) = mc_loc m) -> Pre2g f e s'.
+Proof.
+  intros f e s s' mid g [F D1 D2 S1 S2 C1 C2 M1 M2] U Hg.
+  pose proof U as (Hs & Hr & Ht & Hc & Hd & Hmc & Hds & Hl & Hm).
+  split.
+  - unfold current_file in *. now rewrite Ht.
+  - intros nm d H. destruct (D1 nm d H) as [id [A B]]. exists id. unfold find_def in *. rewrite Hd.
+    split; [exact A|]. eapply define_loc_mc_update; eassumption.
+  - intros nm H. unfold find_def in *. rewrite Hd. now apply D2.
+  - intros nm d H. destruct (S1 nm d H) as [id [A B]]. exists id. unfold find_defset in *. rewrite Hds.
+    split; [exact A|]. eapply define_loc_mc_update; eassumption.
+  - intros nm H. unfold find_defset in *. rewrite Hds. now apply S2.
+  - intros nm d H. specialize (C1 nm d H). unfold class_view, find_class in *. now rewrite Hc, Hr.
+  - intros nm H. unfold find_class in *. rewrite Hc. now apply C2.
+  - intros nm d H. specialize (M1 nm d H). unfold mc_view, find_multiclass in *. rewrite Hmc.
+    destruct (alookup nm (s_nmc s)) as [id|]; [|discriminate].
+    change (define_loc s' (SyMc id) = Some d). eapply define_loc_mc_update; eassumption.
+  - intros nm H. unfold find_multiclass in *. rewrite Hmc. now apply M2.
+Qed.
+
+Lemma find_local_tail_mc : forall t s s' mid g nm,
+    s_mcs s' = set_nth (N.to_nat mid) g (s_mcs s) ->
+    current_record_id (set_scopes t s) = None -> (forall c, In c t -> sc_kind c <> KMulticlass mid) ->
+    find_local (set_scopes t s') nm = find_local (set_scopes t s) nm.
+Proof.
+  intros t s s' mid g nm Hm Hnr Hne. unfold find_local; simpl.
+  assert (G : forall l, find_map sc_record_id l = None -> (forall c, In c l -> sc_kind c <> KMulticlass mid) ->
+                        find_map (fun c => scope_find (set_scopes t s') c nm) l
+                        = find_map (fun c => scope_find (set_scopes t s) c nm) l).
+  { induction l as [|c r IHl]; intros Hn Hk; simpl; [reflexivity|]. simpl in Hn.
+    destruct (sc_record_id c) eqn:Ec; [discriminate|].
+    assert (E : scope_find (set_scopes t s') c nm = scope_find (set_scopes t s) c nm).
+    { unfold scope_find. destruct (sc_find_variable c nm); [reflexivity|].
+      unfold sc_record_id in Ec. destruct (sc_kind c) eqn:Ek; try reflexivity; try discriminate. simpl.
+      rewrite Hm, nthN_set_nth.
+      destruct (N.eqb_spec mid id) as [->|Hd]; [exfalso; apply (Hk c); [now left|exact Ek]|reflexivity]. }
+    rewrite E. destruct (scope_find (set_scopes t s) c nm); [reflexivity|].
+    apply IHl; [exact Hn|intros; apply Hk; now right]. }
+  apply G; assumption.
+Qed.
+
+Record ResM (f : N) (s s' : st) (E : list ev) (e' : env) (mid : N) : Prop := mkResM {
+  rm_uses : s_uses s' = rev E ++ s_uses s;
+  rm_nf : nf s' = nf s;
+  rm_mb : MB f e' s' mid;
+  rm_g : Pre2g f e' s' }.
+Lemma ResM_trans : forall f a b c E1 E2 e1 e2 mid,
+    ResM f a b E1 e1 mid -> ResM f b c E2 e2 mid -> ResM f a c (E1 ++ E2) e2 mid.
+Proof.
+  intros f a b c E1 E2 e1 e2 mid [U1 N1 _ _] [U2 N2 R2 G2]. split; auto.
+  - rewrite U2, U1, rev_app_distr, app_assoc. reflexivity.
+  - congruence.
+Qed.
+Lemma ResM_of_Step : forall f e s s' E mid,
+    Step s s' E -> MB f e s mid -> Pre2g f e s -> ResM f s s' E e mid.
+Proof.
+  intros f e s s' E mid [U V Sc N] R G. split; auto.
+  - eapply MB_VR; eassumption.
+  - eapply Pre2g_VR; eassumption.
+Qed.
+
+Lemma MB_add_targ : forall f e s mid l,
+    MB f e s mid -> Pre2g f e s ->
+    let s3 := snd (multiclass_mut mid (mc_add_targ (lf_name l) (lenN (s_leaves s))) (snd (add_leaf l s))) in
+    ResM f s s3 [] (add_targ e (lf_name l) (lf_loc l)) mid.
+Proof.
+  intros f e s mid l [t fr frs mc Hsc Hfe Hv Hfl Hmc At T1 T2 T3 T4 T5] G s3.
+  assert (U : mc_update s s3 mid (mc_add_targ (lf_name l) (lenN (s_leaves s))) /\ s_uses s3 = s_uses s /\ nf s3 = nf s
+              /\ s_leaves s3 = s_leaves s ++ [l]).
+  { unfold s3, multiclass_mut, add_leaf; simpl. unfold add_pos.
+    destruct (rng_empty (lf_loc l)); simpl; rewrite Hmc; simpl; repeat split; auto; eexists; reflexivity. }
+  destruct U as (U & Hu & Hn & Hl).
+  pose proof U as (Hs & Hr & Ht & Hc & Hd & Hmcn & Hds & Hext & Hm).
+  assert (Hid : nthN (s_leaves s3) (lenN (s_leaves s)) = Some l) by (rewrite Hl; apply nthN_app_last).
+  split; auto.
+  - apply (mkMB f _ s3 mid t (mkFrame (fr_vars fr) (fr_fields fr) ((lf_name l, lf_loc l) :: fr_targs fr)) frs
+                 (mc_add_targ (lf_name l) (lenN (s_leaves s)) mc)); auto.
+    + now rewrite Hs.
+    + now apply add_targ_frames.
+    + rewrite Hm, nthN_set_nth, N.eqb_refl, Hmc. reflexivity.
+    + simpl. now apply (AL_insert s s3).
+    + intros nm d H. destruct (T1 nm d H) as [sym [A B]]. exists sym.
+      rewrite (find_local_tail_mc t s s3 mid _ nm Hm T3 T4). split; [exact A|].
+      eapply define_loc_mc_update; [exact U|reflexivity|exact B].
+    + intros nm H. rewrite (find_local_tail_mc t s s3 mid _ nm Hm T3 T4). now apply T2.
+    + intros c m Hin Hk. simpl. rewrite Hm, nthN_set_nth.
+      destruct (N.eqb mid m); [|apply (T5 c m Hin Hk)].
+      pose proof (T5 c m Hin Hk) as X. simpl in X. destruct (nthN (s_mcs s) m); [discriminate|congruence].
+  - eapply (Pre2g_globals f e); [apply same_globals_add_targ|].
+    eapply Pre2g_mc_update; [exact G|exact U|reflexivity].
+Qed.
+
+Lemma MB_Pre : forall f e s mid, MB f e s mid -> Pre2g f e s -> Pre f e s.
+Proof. intros. apply Pre2_Pre. eapply MB_Pre2; eassumption. Qed.
+Lemma MB_current : forall f e s mid, MB f e s mid ->
+    current_record_id s = None /\ current_multiclass_id s = Some mid.
+Proof.
+  intros f e s mid [t fr frs mc Hsc _ _ _ _ _ _ _ T3 _ _]. split.
+  - unfold current_record_id in *. rewrite Hsc. simpl in *. exact T3.
+  - unfold current_multiclass_id. rewrite Hsc. reflexivity.
+Qed.
+
+Definition mtarg_state (n : nat) (t : ty) (i : ident) (d : option value) (mid : N) (s : st) : st :=
+  let loc := mkR (current_file s) (r_lo (i_rng i)) (r_hi (i_rng i)) in
+  match index_ty t s with
+  | (None, s1) => s1
+  | (Some typ, s1) =>
+    let lf := mkLeaf LTArg (i_name i) typ match d with Some _ => true | None => false end loc in
+    let s3 := snd (multiclass_mut mid (mc_add_targ (i_name i) (lenN (s_leaves s1))) (snd (add_leaf lf s1))) in
+    match d with Some v => snd (index_value n v s3) | None => s3 end
+  end.
+Lemma mtarg_state_eq : forall n t i d mid s,
+    current_record_id s = None -> current_multiclass_id s = Some mid ->
+    snd (index_targ n (TArg t i d) s) = mtarg_state n t i d mid s.
+Proof.
+  intros n t i d mid s Hc Hm. unfold mtarg_state, index_targ.
+  unfold bind at 1. unfold here at 1, get. cbn [fst snd].
+  unfold bind at 1.
+  pose proof (keeps_index_ty t s) as Hk.
+  destruct (index_ty t s) as [[typ|] s1]; cbn [fst snd] in *; [|reflexivity].
+  set (lf := mkLeaf LTArg (i_name i) typ match d with Some _ => true | None => false end
+                    (mkR (current_file s) (r_lo (i_rng i)) (r_hi (i_rng i)))).
+  unfold bind at 1.
+  assert (Ea : add_leaf lf s1 = (Some (lenN (s_leaves s1)), snd (add_leaf lf s1))) by reflexivity.
+  rewrite Ea. cbn [fst snd].
+  unfold bind at 1. unfold state at 1, get. cbn [fst snd].
+  assert (Hc1 : current_record_id (snd (add_leaf lf s1)) = None)
+    by (unfold current_record_id in *; rewrite (keeps_add_leaf lf s1), Hk; exact Hc).
+  assert (Hm1 : current_multiclass_id (snd (add_leaf lf s1)) = Some mid)
+    by (unfold current_multiclass_id in *; rewrite (keeps_add_leaf lf s1), Hk; exact Hm).
+  rewrite Hc1, Hm1. unfold seq. destruct d as [v|]; reflexivity.
+Qed.
+
+Lemma mtarg_sim : forall n a f e s mid,
+    frag_targ a = true -> MB f e s mid -> Pre2g f e s ->
+    forallb resolved (fst (spec_targ f e a)) = true ->
+    s_bad (snd (index_targ n a s)) = false ->
+    ResM f s (snd (index_targ n a s)) (fst (spec_targ f e a)) (snd (spec_targ f e a)) mid.
+Proof.
+  intros n [t i d] f e s mid Hf R G HR Hb.
+  destruct (MB_current _ _ _ _ R) as [Hcr Hcm].
+  rewrite (mtarg_state_eq n t i d mid s Hcr Hcm) in *.
+  change (spec_targ f e (TArg t i d)) with
+    (spec_ty f e t ++ match d with Some v => spec_value f (add_targ e (i_name i) (at_file f (i_rng i))) v | None => [] end,
+     add_targ e (i_name i) (at_file f (i_rng i))) in *.
+  simpl in HR, Hf |- *. set (e1 := add_targ e (i_name i) (at_file f (i_rng i))) in *.
+  rewrite forallb_app in HR. apply andb_true_iff in HR. destruct HR as [HRt HRv].
+  unfold mtarg_state in *.
+  set (loc := mkR (current_file s) (r_lo (i_rng i)) (r_hi (i_rng i))) in *.
+  assert (Hloc : loc = at_file f (i_rng i)) by (unfold loc, at_file; now rewrite (g_file f e s G)).
+  pose proof (MB_Pre _ _ _ _ R G) as P.
+  pose proof (ty_sim t f e s P HRt) as St. pose proof (ty_sim_some t f e s P HRt) as Hts.
+  destruct (index_ty t s) as [[typ|] s1] eqn:Et; [|simpl in Hts; congruence]. simpl in St.
+  pose proof (ResM_of_Step f e s s1 _ mid St R G) as R1. pose proof R1 as [_ _ Rb1 G1].
+  set (lf := mkLeaf LTArg (i_name i) typ match d with Some _ => true | None => false end loc) in *.
+  pose proof (MB_add_targ f e s1 mid lf Rb1 G1) as R2.
+  assert (Ee : add_targ e (lf_name lf) (lf_loc lf) = e1) by (unfold e1, lf; simpl; now rewrite Hloc).
+  rewrite Ee in R2. simpl in R2.
+  set (s3 := snd (multiclass_mut mid (mc_add_targ (i_name i) (lenN (s_leaves s1))) (snd (add_leaf lf s1)))) in *.
+  pose proof R2 as [_ _ Rb3 G3].
+  destruct d as [v|]; simpl in Hf, HRv |- *.
+  - eapply ResM_trans; [exact R1|]. change (spec_value f e1 v) with ([] ++ spec_value f e1 v).
+    eapply ResM_trans; [exact R2|]. apply ResM_of_Step; auto. apply value_agrees; auto. eapply MB_Pre; eassumption.
+  - rewrite app_nil_r. rewrite <- (app_nil_r (spec_ty f e t)). eapply ResM_trans; [exact R1|exact R2].
+Qed.
+
+Lemma mtargs_sim : forall n l f e s mid,
+    forallb frag_targ l = true -> MB f e s mid -> Pre2g f e s ->
+    forallb resolved (fst (spec_targs f e l)) = true ->
+    s_bad (snd (iterM (index_targ n) l s)) = false ->
+    ResM f s (snd (iterM (index_targ n) l s)) (fst (spec_targs f e l)) (snd (spec_targs f e l)) mid.
+Proof.
+  intros n l. induction l as [|a r IHl]; intros f e s mid Hf R G HR Hb.
+  - simpl. split; auto.
+  - simpl in Hf. apply andb_true_iff in Hf. destruct Hf as [Hf1 Hf2].
+    simpl in HR, Hb |- *. unfold seq in *.
+    destruct (spec_targ f e a) as [ev1 e1] eqn:E1. destruct (spec_targs f e1 r) as [ev2 e2] eqn:E2. simpl in *.
+    rewrite forallb_app in HR. apply andb_true_iff in HR. destruct HR as [HR1 HR2].
+    assert (BMi : forall x, resp BadMono (index_targ n x)).
+    { intros x. apply (r_index_targ BadMono BM_refl BM_trans); bm_prim. }
+    assert (Hb1 : s_bad (snd (index_targ n a s)) = false).
+    { eapply (bad_false_before _ (iterM (index_targ n) r)); [|exact Hb].
+      apply (resp_iterM BadMono BM_refl BM_trans). intros; apply BMi. }
+    pose proof (mtarg_sim n a f e s mid Hf1 R G) as R1. rewrite E1 in R1. simpl in R1. specialize (R1 HR1 Hb1).
+    pose proof R1 as [_ _ Rb1 G1].
+    pose proof (IHl f e1 _ mid Hf2 Rb1 G1) as R2. rewrite E2 in R2. simpl in R2. specialize (R2 HR2 Hb).
+    eapply ResM_trans; eassumption.
+Qed.
+
+Lemma add_multiclass_facts : forall nm loc s,
+    let s1 := snd (add_multiclass nm loc s) in
+    s_scopes s1 = s_scopes s /\ s_recs s1 = s_recs s /\ s_leaves s1 = s_leaves s /\ s_trace s1 = s_trace s /\
+    s_mcs s1 = s_mcs s ++ [mkMc nm [] [] loc] /\ s_uses s1 = s_uses s /\ nf s1 = nf s /\
+    s_nclass s1 = s_nclass s /\ s_ndef s1 = s_ndef s /\ s_ndset s1 = s_ndset s /\
+    s_nmc s1 = (nm, lenN (s_mcs s)) :: s_nmc s.
+Proof.
+  intros nm loc s s1. unfold s1, add_multiclass; simpl. unfold add_pos, nf. destruct (rng_empty loc); repeat split.
+Qed.
+
+Lemma define_loc_app_mc : forall s s1 m sym d,
+    s_mcs s1 = s_mcs s ++ [m] -> s_recs s1 = s_recs s -> s_leaves s1 = s_leaves s ->
+    define_loc s sym = Some d -> define_loc s1 sym = Some d.
+Proof.
+  intros s s1 m sym d Hm Hr Hl H. destruct sym; simpl in *.
+  - now rewrite Hr.
+  - rewrite Hm. destruct (nthN (s_mcs s) i) eqn:E; [|discriminate]. now rewrite (nthN_app_some _ _ [m] _ _ E).
+  - now rewrite Hl.
+Qed.
+
+Lemma Pre2g_add_multiclass : forall f e s nm loc,
+    Pre2g f e s -> Pre2g f (set_mc e nm loc) (snd (add_multiclass nm loc s)).
+Proof.
+  intros f e s nm loc [F D1 D2 S1 S2 C1 C2 M1 M2].
+  destruct (add_multiclass_facts nm loc s) as (Hsc & Hr & Hl & Ht & Hm & _ & _ & Hc & Hd & Hds & Hmc).
+  set (s1 := snd (add_multiclass nm loc s)) in *.
+  assert (DL : forall sym d, define_loc s sym = Some d -> define_loc s1 sym = Some d)
+    by (intros; eapply define_loc_app_mc; eassumption).
+  split.
+  - unfold current_file in *. now rewrite Ht.
+  - intros n0 d H. destruct (D1 n0 d H) as [id [A B]]. exists id. unfold find_def in *. rewrite Hd.
+    split; [exact A|exact (DL _ _ B)].
+  - intros n0 H. unfold find_def in *. rewrite Hd. now apply D2.
+  - intros n0 d H. destruct (S1 n0 d H) as [id [A B]]. exists id. unfold find_defset in *. rewrite Hds.
+    split; [exact A|exact (DL _ _ B)].
+  - intros n0 H. unfold find_defset in *. rewrite Hds. now apply S2.
+  - intros n0 d H. specialize (C1 n0 d H). unfold class_view, find_class in *. now rewrite Hc, Hr.
+  - intros n0 H. unfold find_class in *. rewrite Hc. now apply C2.
+  - intros n0 d H. unfold lookup_mc, set_mc in H. simpl in H. unfold mc_view, find_multiclass. rewrite Hmc. simpl.
+    destruct (name_eqb n0 nm).
+    + injection H as <-. rewrite Hm, nthN_app_last. reflexivity.
+    + specialize (M1 n0 d H). unfold mc_view, find_multiclass in M1.
+      destruct (alookup n0 (s_nmc s)) as [id|]; [|discriminate]. exact (DL (SyMc id) d M1).
+  - intros n0 H. unfold lookup_mc, set_mc in H. simpl in H. unfold find_multiclass. rewrite Hmc. simpl.
+    destruct (name_eqb n0 nm); [discriminate|]. now apply M2.
+Qed.
+
+Lemma MB_start : forall f e e0 s s1 mid nm loc,
+    Pre2 f e s -> Stat s -> e_frames e0 = e_frames e ->
+    s_scopes s1 = s_scopes s -> s_recs s1 = s_recs s -> s_leaves s1 = s_leaves s ->
+    s_mcs s1 = s_mcs s ++ [mkMc nm [] [] loc] -> mid = lenN (s_mcs s) ->
+    MB f (push_vars e0 []) (pushed (KMulticlass mid) s1) mid.
+Proof.
+  intros f e e0 s s1 mid nm loc [F L1 L2 _ _ _ _ _ _ _ _] [Hnr Hmv _] Hfe Hsc Hr Hl Hm ->.
+  assert (Hval : forall c m, In c (s_scopes s) -> sc_kind c = KMulticlass m -> m <> lenN (s_mcs s)).
+  { intros c m Hin Hk Heq. subst m. apply (Hmv c _ Hin Hk). unfold nthN, lenN. rewrite Nat2N.id.
+    apply nth_error_None. lia. }
+  assert (FLeq : forall nm0, find_local (set_scopes (s_scopes s1) (pushed (KMulticlass (lenN (s_mcs s))) s1)) nm0
+                             = find_local s nm0).
+  { intros nm0. unfold find_local; simpl. rewrite Hsc.
+    assert (G : forall l, find_map sc_record_id l = None -> (forall c, In c l -> In c (s_scopes s)) ->
+                          find_map (fun c => scope_find (set_scopes (s_scopes s) (pushed (KMulticlass (lenN (s_mcs s))) s1)) c nm0) l
+                          = find_map (fun c => scope_find s c nm0) l).
+    { induction l as [|c r IHl]; intros Hn Hin; simpl; [reflexivity|]. simpl in Hn.
+      destruct (sc_record_id c) eqn:Ec; [discriminate|].
+      assert (E : scope_find (set_scopes (s_scopes s) (pushed (KMulticlass (lenN (s_mcs s))) s1)) c nm0 = scope_find s c nm0).
+      { unfold scope_find. destruct (sc_find_variable c nm0); [reflexivity|].
+        unfold sc_record_id in Ec. destruct (sc_kind c) eqn:Ek; try reflexivity; try discriminate. simpl.
+        rewrite Hm. pose proof (Hmv c id (Hin c (or_introl eq_refl)) Ek) as Hv.
+        destruct (nthN (s_mcs s) id) as [m0|] eqn:E0; [|congruence]. now rewrite (nthN_app_some _ _ _ _ _ E0). }
+      rewrite E. destruct (scope_find s c nm0); [reflexivity|]. apply IHl; [exact Hn|intros; apply Hin; now right]. }
+    apply G; auto. }
+  apply (mkMB f _ _ _ (s_scopes s1) (mkFrame [] [] []) (e_frames e0) (mkMc nm [] [] loc)); auto.
+  - unfold pushed; simpl. rewrite Hm. apply nthN_app_last.
+  - intros n0. reflexivity.
+  - intros n0 d H. rewrite Hfe in H. destruct (L1 n0 d H) as [sym [A B]]. exists sym. split.
+    + rewrite FLeq. exact A.
+    + change (define_loc s1 sym = Some d). eapply define_loc_app_mc; eassumption.
+  - intros n0 H. rewrite Hfe in H. rewrite FLeq. now apply L2.
+  - unfold current_record_id in *; simpl. now rewrite Hsc.
+  - intros c Hin Hk. rewrite Hsc in Hin. apply (Hval c _ Hin Hk). reflexivity.
+  - intros c m Hin Hk. simpl in *. rewrite Hsc in Hin. rewrite Hm.
+    pose proof (Hmv c m Hin Hk) as Hv. destruct (nthN (s_mcs s) m) as [m0|] eqn:E0; [|congruence].
+    rewrite (nthN_app_some _ _ _ _ _ E0). discriminate.
+Qed.
+
+Lemma spec_multiclass : forall f e i targs ps b,
+    spec_stmt f e (SMulticlass i targs ps b)
+    = let e0 := set_mc e (i_name i) (at_file f (i_rng i)) in
+      let e1 := push_vars e0 [] in
+      let '(ev1, e2) := match targs with Some l => spec_targs f e1 l | None => ([], e1) end in
+      let ev2 := flat_map (spec_mcref f e2) ps in
+      let '(ev3, e3) := spec_stmts f e2 b in
+      (ev1 ++ ev2 ++ ev3, leave e0 e3).
+Proof.
+  intros. simpl. destruct (match targs with Some l => spec_targs f _ l | None => _ end) as [ev1 e2].
+  rewrite mcrefs_local, spec_local. reflexivity.
+Qed.
+
+Section CasesB9.
+  Variable files : list (list stmt).
+  Variable n : nat.
+  Hypothesis IH : sim_B files n.
+
+  Lemma BM_mc_body : forall mid (targs : option (list targ)) ps b,
+      resp BadMono (scoped (KMulticlass mid)
+                      (seq (match targs with Some l => iterM (index_targ n) l | None => ret tt end)
+                           (seq (index_parents n ps) (iterM (index_stmt files n) b)))).
+  Proof.
+    intros mid targs ps b. apply (r_scoped BadMono BM_refl BM_trans); [bm_prim|bm_prim|].
+    apply (resp_seq BadMono BM_trans).
+    - destruct targs as [l|]; [|apply (resp_ret BadMono BM_refl)].
+      apply (resp_iterM BadMono BM_refl BM_trans). intros x _. apply (r_index_targ BadMono BM_refl BM_trans); bm_prim.
+    - apply (resp_seq BadMono BM_trans); [apply (r_index_parents BadMono BM_refl BM_trans); bm_prim|apply BM_stmts].
+  Qed.
+
+  Lemma caseB_multiclass : forall i targs ps b f e s,
+      match targs with Some l => forallb frag_targ l | None => true end = true ->
+      forallb frag_classref ps = true -> fragB_stmts b = true ->
+      Pre2 f e s -> Stat s -> e_frames e <> [] ->
+      forallb resolved (fst (spec_stmt f e (SMulticlass i targs ps b))) = true ->
+      s_bad (snd (index_stmt files (S n) (SMulticlass i targs ps b) s)) = false ->
+      ResB f s (snd (index_stmt files (S n) (SMulticlass i targs ps b) s))
+           (fst (spec_stmt f e (SMulticlass i targs ps b))) (snd (spec_stmt f e (SMulticlass i targs ps b))).
+  Proof.
+    intros i targs ps b f e s Hft Hfp Hfb P T He HR Hb.
+    pose proof (finish_block_like files (S n) (SMulticlass i targs ps b) f e) as FIN.
+    set (final := snd (index_stmt files (S n) (SMulticlass i targs ps b) s)) in *.
+    rewrite spec_multiclass in *. cbv zeta in HR |- *.
+    set (loc := at_file f (i_rng i)) in *.
+    set (e0 := set_mc e (i_name i) loc) in *.
+    set (e1 := push_vars e0 []) in *.
+    destruct (match targs with Some l => spec_targs f e1 l | None => ([], e1) end) as [ev1 e2] eqn:Et.
+    destruct (spec_stmts f e2 b) as [ev3 e3] eqn:Eb. simpl in HR |- *.
+    rewrite forallb_app in HR. apply andb_true_iff in HR. destruct HR as [HR1 HR].
+    rewrite forallb_app in HR. apply andb_true_iff in HR. destruct HR as [HR2 HR3].
+    set (mloc := mkR (current_file s) (r_lo (i_rng i)) (r_hi (i_rng i))).
+    assert (Hloc : mloc = loc) by (unfold mloc, loc, at_file; now rewrite (p2_file f e s P)).
+    set (s1 := snd (add_multiclass (i_name i) mloc s)).
+    set (mid := lenN (s_mcs s)).
+    set (body := seq (match targs with Some l => iterM (index_targ n) l | None => ret tt end)
+                     (seq (index_parents n ps) (iterM (index_stmt files n) b))).
+    assert (Efin : final = snd (scoped (KMulticlass mid) body s1)).
+    { unfold final. simpl. unfold bind at 1. unfold here, get. simpl. unfold bind at 1. reflexivity. }
+    rewrite Efin in Hb |- *.
+    destruct (add_multiclass_facts (i_name i) mloc s) as (Hsc & Hr & Hl & Ht & Hm & Hu & Hn & Hc & Hd & Hds & Hmc).
+    fold s1 in Hsc, Hr, Hl, Ht, Hm, Hu, Hn, Hc, Hd, Hds, Hmc.
+    assert (Hb' := Hb). apply scoped_bad in Hb'.
+    assert (R0 : MB f e1 (pushed (KMulticlass mid) s1) mid)
+      by (apply (MB_start f e e0 s s1 mid (i_name i) mloc); auto).
+    assert (G0 : Pre2g f e1 (pushed (KMulticlass mid) s1)).
+    { apply Pre2g_pushed. unfold e0. rewrite <- Hloc. apply Pre2g_add_multiclass. now apply Pre2_g. }
+    unfold body, seq in Hb'.
+    set (st := snd ((match targs with Some l => iterM (index_targ n) l | None => ret tt end) (pushed (KMulticlass mid) s1))) in *.
+    assert (Hbp : s_bad (snd (index_parents n ps st)) = false)
+      by (eapply (bad_false_before _ (iterM (index_stmt files n) b)); [apply BM_stmts|exact Hb']).
+    assert (Hbt : s_bad st = false).
+    { eapply (bad_false_before _ (index_parents n ps)); [|exact Hbp]. apply (r_index_parents BadMono BM_refl BM_trans); bm_prim. }
+    assert (R1 : ResM f (pushed (KMulticlass mid) s1) st ev1 e2 mid).
+    { unfold st. destruct targs as [l|]; simpl in Et |- *.
+      - pose proof (mtargs_sim n l f e1 (pushed (KMulticlass mid) s1) mid Hft R0 G0) as X.
+        rewrite Et in X. simpl in X. apply X; auto.
+      - injection Et as <- <-. split; auto. }
+    destruct R1 as [U1 N1 Rb1 G1].
+    pose proof (MB_Pre2 _ _ _ _ Rb1 G1) as P2. pose proof (MB_Stat _ _ _ _ Rb1) as T2.
+    assert (F2 : e_frames e2 <> []) by (destruct Rb1 as [t fr frs mc _ Hfe2 _ _ _ _ _ _ _ _ _]; rewrite Hfe2; discriminate).
+    (* parents *)
+    assert (Hk : current_multiclass_id st <> None \/ current_defm_id st <> None).
+    { left. destruct (MB_current _ _ _ _ Rb1) as [_ X]. rewrite X. discriminate. }
+    pose proof (parents_mc_sim n ps f e2 st Hfp P2 T2 Hk HR2 Hbp) as S2.
+    pose proof (ResB_of_StepM f e2 st _ _ S2 P2 T2 F2) as R2. pose proof R2 as [U2 N2 _ P3 T3 _].
+    (* body statements *)
+    pose proof (stmtsB_sim files n IH b f e2 (snd (index_parents n ps st)) Hfb P3 T3 F2) as R3.
+    rewrite Eb in R3. simpl in R3. specialize (R3 HR3 Hb'). destruct R3 as [U3 N3 _ P4 T4 F4].
+    set (s4 := snd (iterM (index_stmt files n) b (snd (index_parents n ps st)))) in *.
+    assert (Ebody : snd (body (pushed (KMulticlass mid) s1)) = s4) by reflexivity.
+    destruct (grows_mc_body files n (fun l => grows_iterM _ _ _ l (fun x _ => grows_index_stmt files n x)) targs ps b
+                            (pushed (KMulticlass mid) s1)) as [vs Hvs].
+    fold body in Hvs.
+    rewrite <- Efin. unfold final.
+    eapply (FIN e3 (leave e0 e3) s s4 (ev1 ++ flat_map (spec_mcref f e2) ps ++ ev3)); auto.
+    - apply same_globals_equiv, same_globals_leave.
+    - now apply Pre2_g.
+    - change (same_but_scopes final s4). rewrite Efin.
+      rewrite (scoped_final _ (KMulticlass mid) body s1 vs Hvs). rewrite Ebody. apply sbs_set_scopes.
+    - rewrite U3, U2, U1. simpl. rewrite Hu, !rev_app_distr, !app_assoc. reflexivity.
+    - rewrite N3, N2, N1. unfold nf, pushed; simpl. fold (nf s1). exact Hn.
+  Qed.
+End CasesB9.
+
+(** ---------------------------------------------------------------------------------------------
+    all statements of fragment B *)
+Theorem statements_agree : forall files n, sim_B files n.
+Proof.
+  intros files n. induction n as [|n IH].
+  - intros x f e s Hf P T He HR Hb. simpl in Hb. discriminate.
+  - intros x f e s Hf P T He HR Hb. destruct x; simpl in Hf; try discriminate.
+    + (* assert *) apply andb_true_iff in Hf. destruct Hf as [Hfc Hfm].
+      change (spec_stmt f e (SAssert c m)) with (spec_value f e m ++ spec_value f e c, e) in *.
+      apply caseB_assert; auto.
+    + (* class *)
+      apply andb_true_iff in Hf. destruct Hf as [Hf Hfb]. apply andb_true_iff in Hf. destruct Hf as [Hft Hfp].
+      destruct parents; [|discriminate]. apply caseB_class; auto.
+    + (* def *)
+      apply andb_true_iff in Hf. destruct Hf as [Hf Hfb]. apply andb_true_iff in Hf. destruct Hf as [Hfn Hfp].
+      destruct parents; [|discriminate]. apply caseB_def; auto.
+    + (* defm *) apply andb_true_iff in Hf. destruct Hf as [Hfn Hfp]. apply caseB_defm; auto.
+    + (* defset *) apply (caseB_defset files n IH); auto; try (now apply fragB_of_local).
+    + (* defvar *)
+      change (spec_stmt f e (SDefvar i v)) with (spec_value f e v, add_var e (i_name i) (at_file f (i_rng i))) in *.
+      apply caseB_defvar; auto.
+    + (* dump *) change (spec_stmt f e (SDump v)) with (spec_value f e v, e) in *. apply caseB_dump; auto.
+    + (* foreach *) apply andb_true_iff in Hf. destruct Hf as [Hfi Hfb].
+      apply (caseB_foreach files n IH); auto; try (now apply fragB_of_local).
+    + (* if *) apply andb_true_iff in Hf. destruct Hf as [Hf Hfe]. apply andb_true_iff in Hf. destruct Hf as [Hfc Hft].
+      apply (caseB_if files n IH); auto; try (now apply fragB_of_local);
+        try (destruct el; [now apply fragB_of_local|reflexivity]).
+    + (* let *) apply andb_true_iff in Hf. destruct Hf as [Hfv Hfb].
+      apply (caseB_let files n IH); auto; try (now apply fragB_of_local).
+    + (* multiclass *)
+      apply andb_true_iff in Hf. destruct Hf as [Hf Hfb]. apply andb_true_iff in Hf. destruct Hf as [Hft Hfp].
+      apply (caseB_multiclass files n IH); auto; try (now apply fragB_of_local).
+Qed.
+
+(** C05_resolution for one file of the fragment (all statements; classes and defs without parent classes; no
+    field access; no include): the model's log of resolved uses is exactly the specification's list *)
+Theorem file_resolution : forall files n l,
+    fragB_stmts l = true ->
+    forallb resolved (fst (spec_stmts 0 env0 l)) = true ->
+    s_bad (snd (iterM (index_stmt files n) l st0)) = false ->
+    rev (s_uses (snd (iterM (index_stmt files n) l st0))) = fst (spec_stmts 0 env0 l) /\
+    nf (snd (iterM (index_stmt files n) l st0)) = [].
+Proof.
+  intros files n l Hf HR Hb.
+  assert (T0 : Stat st0).
+  { split; [reflexivity| |discriminate]. intros c mid [<-|[]] Hk. discriminate. }
+  destruct (stmtsB_sim files n (statements_agree files n) l 0 env0 st0 Hf Pre2_initial T0) as [U N _ _ _ _]; auto;
+    try discriminate.
+  split.
+  - rewrite U. simpl. rewrite app_nil_r. apply rev_involutive.
+  - rewrite N. reflexivity.
 Qed.
